@@ -188,7 +188,7 @@ def run(ctx):
         if variant == "heur":
             base += heur_big_grid(lvl, h["sig"])
         rr = ctx.rng.fork("c03-rand-%d-%s" % (lvl, variant))
-        n_int, n_big = ((14, 14) if lvl == 1 else (6, 6)) if quick else (150, 150)
+        n_int, n_big = ((14, 14) if lvl == 1 else (6, 6)) if quick else (500, 500)
         base += random_probes(rr, lvl, variant, n_int, n_big)
         for label, kw in base:
             probes.append((lvl, variant, label, h["pk"], mutate(variant, h["sig"], **kw), h["msg"]))
